@@ -1,25 +1,38 @@
 #!/bin/bash
-# crash_triage.sh <nvh binary> <ID> <found dir> <signal>
+# crash_triage.sh <nvh binary> <ID> <found dir> <signal> [tier]
 # The harness process died by a signal. Its crash recorder left one candidate file per
 # worker thread (the case each thread was executing). Replay each candidate in an isolated
 # process: the one that dies again (or fails its oracle) is the culprit.
-BIN="$1"; ID="$2"; DIR="$3"; SIG="$4"
-found=0
-for f in "$DIR"/crash-*.json; do
-  [ -e "$f" ] || continue
-  out=$(timeout -k 5 120 "$BIN" "$ID" --replay "$f" 2>&1); rc=$?
-  if [ $rc -gt 128 ] || [ $rc -eq 124 ] || echo "$out" | grep -q "^VIOLATION"; then
-    keep="$DIR/$ID-crash-$(basename "$f" .json | sed 's/^crash-//').json"
-    mv "$f" "$keep"
-    echo "VIOLATION property=$ID replay=$keep"
-    if [ $rc -gt 128 ]; then echo "  the process dies with signal $((rc-128)) on this case (abort / stack overflow / segfault) — reproduced in isolation";
-    elif [ $rc -eq 124 ]; then echo "  the case does not return within 120 s in isolation";
-    else echo "$out" | grep -v "^VIOLATION" | head -8; fi
-    found=1
-  else
-    rm -f "$f"
+# Only the totality checks record every case eagerly. For the others nothing may have been
+# recorded: the same run (same seed, deterministic) is then repeated once with
+# VERIF_RECORD_ALL=1, which records every case before it is evaluated, and triaged again.
+BIN="$1"; ID="$2"; DIR="$3"; SIG="$4"; TIER="$5"
+triage() {
+  local found=0
+  for f in "$DIR"/crash-*.json; do
+    [ -e "$f" ] || continue
+    out=$(timeout -k 5 120 "$BIN" "$ID" --replay "$f" 2>&1); rc=$?
+    if [ $rc -gt 128 ] || [ $rc -eq 124 ] || echo "$out" | grep -q "^VIOLATION"; then
+      keep="$DIR/$ID-crash-$(basename "$f" .json | sed 's/^crash-//').json"
+      mv "$f" "$keep"
+      echo "VIOLATION property=$ID replay=$keep"
+      if [ $rc -gt 128 ]; then echo "  the process dies with signal $((rc-128)) on this case (abort / stack overflow / segfault) — reproduced in isolation";
+      elif [ $rc -eq 124 ]; then echo "  the case does not return within 120 s in isolation";
+      else echo "$out" | grep -v "^VIOLATION" | head -8; fi
+      found=1
+    else
+      rm -f "$f"
+    fi
+  done
+  return $found
+}
+triage; if [ $? -eq 1 ]; then exit 1; fi
+if [ -n "$TIER" ] && [ -z "$VERIF_RECORD_ALL" ]; then
+  echo "NOTE property=$ID the process died with signal $SIG and no recorded case reproduces it; repeating the run with every case recorded"
+  { VERIF_RECORD_ALL=1 timeout -k 10 7200 "$BIN" "$ID" "$TIER" >/dev/null 2>&1; } 2>/dev/null; rc=$?
+  if [ $rc -gt 128 ] && [ $rc -ne 137 ]; then
+    triage; if [ $? -eq 1 ]; then exit 1; fi
   fi
-done
-if [ $found -eq 1 ]; then exit 1; fi
+fi
 echo "INCONCLUSIVE property=$ID harness process died with signal $SIG and no recorded case reproduces it in isolation"
 exit 2
